@@ -46,7 +46,7 @@ int g_h[NPOS + 1];   /* heights, bottom-up */
 #define RIGHT(i) (2 * (i) + 2)
 #define PRES(i) ((i) < NPOS && g_present[i])
 
-static PTree *build_tree (_Bool with_notifiers)
+static PTree *build_tree2 (_Bool with_knotif, _Bool with_vnotif)
 {
 	int lo[NPOS], hi[NPOS];
 	unsigned count = 0;
@@ -97,7 +97,7 @@ static PTree *build_tree (_Bool with_notifiers)
 #endif
 	}
 	g_alloc_may_fail = 0;
-	PTree *t = p_tree_new_full (TTYPE, cmp_keys, NULL, with_notifiers ? key_destroy : NULL, with_notifiers ? val_destroy : NULL);
+	PTree *t = p_tree_new_full (TTYPE, cmp_keys, NULL, with_knotif ? key_destroy : NULL, with_vnotif ? val_destroy : NULL);
 	__CPROVER_assume (t != NULL);
 	t->root = g_present[0] ? (PTreeBaseNode *) g_n[0] : NULL;
 	t->nnodes = (pint) count;
@@ -105,6 +105,7 @@ static PTree *build_tree (_Bool with_notifiers)
 	g_alloc_may_fail = nondet_bool ();
 	return t;
 }
+static PTree *build_tree (_Bool n) { return build_tree2 (n, n); }
 /* the map view of the pre-state */
 static _Bool pre_member (int k, ppointer *val, ppointer *kptr)
 {
@@ -163,8 +164,8 @@ static void check_tree (PTree *t, int probe)
 /* ================================================================== insert */
 void h_insert (void)
 {
-	_Bool notif = nondet_bool ();
-	PTree *t = build_tree (notif);
+	_Bool kn = nondet_bool (), vn = nondet_bool ();
+	PTree *t = build_tree2 (kn, vn);
 	int k = nondet_int (), probe = nondet_int (); unsigned tag = nondet_uint ();
 	__CPROVER_assume (k > 0 && k < KMAX && tag < 16 && probe > 0 && probe < KMAX);
 	unsigned nv = nondet_uint (); __CPROVER_assume (nv < 64);
@@ -188,9 +189,9 @@ void h_insert (void)
 	/* C13: balance */
 	OBL (g_ok_balance, "C13 insert: red-black / AVL invariant holds after the operation");
 	/* C14: ownership */
-	if (notif) {
-		OBL (existed ? (g_nk == 1 && g_nv == 1 && g_klog[0] == oldk && g_vlog[0] == oldv) : (g_nk == 0 && g_nv == 0), "C14 insert: exactly the replaced pair is passed to the notifiers, nothing else");
-	} else OBL (g_nk == 0 && g_nv == 0, "C14 insert: without notifiers nothing is destroyed");
+	OBL (g_nk == ((existed && kn) ? 1u : 0u) && g_nv == ((existed && vn) ? 1u : 0u), "C14 insert: each given notifier runs exactly once on a replace, never otherwise");
+	if (existed && kn && g_nk == 1) OBL (g_klog[0] == oldk, "C14 insert: the replaced key is the one destroyed");
+	if (existed && vn && g_nv == 1) OBL (g_vlog[0] == oldv, "C14 insert: the replaced value is the one destroyed");
 	if (existed) CANARY ("replace"); else if (!g_alloc_failed) CANARY ("new key");
 	if (g_cnt == NPOS + 1) CANARY ("full tree of height H grows");
 }
@@ -198,8 +199,8 @@ void h_insert (void)
 /* ================================================================== remove */
 void h_remove (void)
 {
-	_Bool notif = nondet_bool ();
-	PTree *t = build_tree (notif);
+	_Bool kn = nondet_bool (), vn = nondet_bool ();   /* key and value notifiers are independent: none, one of them, or both */
+	PTree *t = build_tree2 (kn, vn);
 	int k = nondet_int (), probe = nondet_int (); unsigned tag = nondet_uint ();
 	__CPROVER_assume (k > 0 && k < KMAX && tag < 16 && probe > 0 && probe < KMAX);
 	SPLIT_ASSUME (k);
@@ -213,10 +214,11 @@ void h_remove (void)
 	OBL (g_found == (pm && probe != k), "C12 remove: exactly that key disappears");
 	OBL (!g_found || g_found_val == pv, "C12 remove: every remaining key keeps its value");
 	OBL (g_ok_balance, "C13 remove: red-black / AVL invariant holds after the operation");
-	if (notif) {
-		OBL (existed ? (g_nk == 1 && g_nv == 1) : (g_nk == 0 && g_nv == 0), "C14 remove: notifiers run once per removed pair, never otherwise");
-		if (existed && g_nk == 1 && g_nv == 1) OBL (g_klog[0] == oldk && g_vlog[0] == oldv, "C14 remove: the pair passed to the notifiers is the removed one, not one that stays stored");
-	} else OBL (g_nk == 0 && g_nv == 0, "C14 remove: without notifiers nothing is destroyed");
+	OBL (g_nk == ((existed && kn) ? 1u : 0u) && g_nv == ((existed && vn) ? 1u : 0u), "C14 remove: each given notifier runs once per removed pair, never otherwise");
+	if (existed && kn && g_nk == 1) OBL (g_klog[0] == oldk, "C14 remove: the key passed to the notifier is the removed one, not one that stays stored");
+	if (existed && vn && g_nv == 1) OBL (g_vlog[0] == oldv, "C14 remove: the value passed to the notifier is the removed one, not one that stays stored");
+	/* whatever the notifiers, the pairs that stay are intact: the probe key still maps to its own key object */
+	ppointer pk = NULL; if (pm && probe != k) { pre_member (probe, NULL, &pk); OBL (g_found_kptr == pk, "C12/C14 remove: stored pairs keep their own key objects"); }
 	if (existed) CANARY ("removed"); else CANARY ("absent key");
 }
 
